@@ -161,7 +161,7 @@ E2ECase(tree, inp, tp, off) ==
   IN [k |-> "e2e", text |-> r.text, naming |-> nm, tape |-> tp, lines |-> r.lines, inp |-> inp,
       st |-> fin.st, out |-> fin.out, rd |-> fin.rd, evs |-> MapLines(fin.evs, r.lines),
       report |-> [n \in 1..Len(rep) |-> [rep[n] EXCEPT !.line = r.lines[rep[n].line]]]]
-E2ETapes == {<<>>} \cup MixedTapes(60) \cup { Mixed(64, ab[1], ab[2]) : ab \in {<<29, 4>>, <<31, 8>>, <<37, 16>>, <<41, 1>>, <<43, 6>>} }
+E2ETapes == {<<>>} \cup { Mixed(64, ab[1], ab[2]) : ab \in {<<3, 7>>, <<5, 11>>, <<17, 2>>, <<29, 4>>, <<31, 8>>, <<37, 16>>, <<41, 1>>, <<43, 6>>} }
 E2ETapesFew == {<<>>, Mixed(64, 5, 11)}
 (* picking a case is cheap and sequential; expanding it (render, run, lint) is a separate step so that all workers share it *)
 LoadE2E == /\ c.k = "init" /\ Family = "e2e"
